@@ -28,7 +28,8 @@ Definition bad (cs : list case) : list nat :=
 
 def pre_build():
     import translate
-    return [translate.gen_jump_step()]
+    js = translate.gen_jump_step()
+    return [js, translate.gen_pipeline()] if js[1] else [js]
 
 
 class _Sites:
